@@ -2,7 +2,7 @@
    repair, or before it with fixed = false). Every statement of Proofs/NegotiateP.v / NegotiateSessP.v quantifies over ALL
    views, and client_run10 is client_run_gen on a view that differs in cv_ecdhe only - a field neither [synced] nor any
    offered set mentions - so each one transfers. *)
-From UV Require Import Base.Common Model.Negotiate Model.NegotiateSess Model.NegotiateKeys Proofs.NegotiateP Proofs.NegotiateSessP.
+From UV Require Import Base.Common Model.Negotiate Model.NegotiateSess Model.NegotiateKeys Model.NegotiateReport Proofs.NegotiateP Proofs.NegotiateSessP Proofs.NegotiateReportP.
 From UV Require Model.KeyShare Model.Complete.
 
 Lemma run10_eff fixed e v ks fl :
@@ -91,3 +91,18 @@ Lemma second_share_after_c18 :
   /\ Complete.client_run10 false env_fixed ff_view (KeyShare.mkShape 29 [] false 0) ff_flight = Abort a_illegal_parameter
   /\ client_run ff_view ff_flight = Abort a_illegal_parameter.
 Proof. vm_compute. repeat split; reflexivity. Qed.
+
+(* what the connection reports when the handshake stops (Model/NegotiateReport.v), on the tree's decision function *)
+Lemma report10_offered_wire fixed e v ks w fl :
+  e_fix_curve12 e = true -> synced v w = true ->
+  let r := report_gen e (eff_view fixed v ks fl) fl in
+  (cs_suite r = 0 \/ In (cs_suite r) (w_suites w))
+  /\ (cs_group r = 0 \/ In (cs_group r) (w_shares w) \/ In (cs_group r) (w_groups w))
+  /\ (cs_alpn r = [] \/ In (cs_alpn r) (w_alpn w)).
+Proof. intros Hf Hs. exact (report_offered_wire e (eff_view fixed v ks fl) w fl Hf Hs). Qed.
+
+Lemma report10_of_complete fixed e v ks fl st :
+  Complete.client_run10 fixed e v ks fl = Complete st ->
+  let r := report_gen e (eff_view fixed v ks fl) fl in
+  cs_suite r = cs_suite st /\ cs_group r = cs_group st /\ cs_alpn r = cs_alpn st.
+Proof. intros H. exact (report_of_complete e (eff_view fixed v ks fl) fl st H). Qed.
